@@ -4,6 +4,9 @@ package main
 // with C01 rule 5.)
 
 import (
+	"fmt"
+	"strings"
+
 	"golang.org/x/tools/go/ssa"
 )
 
@@ -210,4 +213,202 @@ func pathFromEdge(e Edge, removed map[Edge]bool, target *ssa.BasicBlock) []*ssa.
 		return nil
 	}
 	return pathTo(e.From, rm, nil, map[*ssa.BasicBlock]bool{target: true})
+}
+
+func init() {
+	register(&Property{
+		ID:  "C14",
+		Run: runC14,
+		Explain: "(1) layout traces: the field operations of the keytab reader (Keytab.Unmarshal → parsePrincipal → readIntN/readBytes) and writer (Keytab.Marshal → entry.marshal → principal.marshal → marshalString), extracted from the SSA in control-flow order with their format-version conditions and loop context, each equal the sequence of the MIT keytab format (record length, principal with the version-1 component-count adjustment on both sides and the name type omitted in version 1, 32-bit timestamp, 8-bit kvno, 16-bit enctype, 16-bit length + key, optional trailing 32-bit kvno), same widths and the same byte-order selector on both sides; negative record lengths are skipped, not parsed; (2) the look-up filter of Keytab.GetEncryptionKey (realm, component count, every component, key type, kvno or wildcard 0, newest entry; no match ⇒ error; returned kvno belongs to the returned key) on every path; the 32-bit kvno defaults to the 8-bit one only when absent or zero; (3) no reader error is dropped in Unmarshal's call tree. Equality of parsed values with an independent reader for every file is not decided.",
+		NotDecided: []string{
+			"parsed values equal an independent reader's for every file (value property)",
+			"binary.Read errors on exactly-sized buffers in the readers (cannot fail; listed as notes)",
+		},
+	})
+}
+
+// ruleErrDropped: in the given functions no call to a module function that
+// returns an error discards it.
+func ruleErrDropped(w *World, c *Check, rule string, fks []string) {
+	for _, fk := range fks {
+		fn := w.Func(fk)
+		if fn == nil {
+			c.Missing(rule, fk)
+			continue
+		}
+		fa := NewFuncAn(w, fn)
+		n := 0
+		for _, b := range fn.Blocks {
+			for _, in := range b.Instrs {
+				call, ok := in.(*ssa.Call)
+				if !ok {
+					continue
+				}
+				callee := call.Call.StaticCallee()
+				if callee == nil {
+					continue
+				}
+				res := callee.Signature.Results()
+				if res.Len() == 0 || res.At(res.Len()-1).Type().String() != "error" {
+					continue
+				}
+				name := fa.CalleeName(call)
+				isModule := callee.Pkg != nil && inModule(callee.Pkg.Pkg.Path())
+				used := false
+				if res.Len() == 1 {
+					used = hasRealReferrers(call)
+				} else if e := errExtract(call, res.Len()-1); e != nil {
+					used = hasRealReferrers(e)
+				}
+				where := w.Pos(InstrPos(call))
+				if !isModule {
+					if !used && name == "encoding/binary.Read" {
+						c.Note(rule, fk, "binary.Read unchecked", where, "the error of binary.Read on an exactly-sized buffer is not checked (cannot fail for fixed-size targets)")
+					}
+					continue
+				}
+				n++
+				c.Decide(used, rule, fk, "error of "+name, where, "the error returned by "+name+" is checked or propagated", "the error result is discarded: a failing read leaves garbage in the entry instead of failing the parse")
+			}
+		}
+		_ = n
+	}
+}
+
+func hasRealReferrers(v ssa.Value) bool {
+	if v.Referrers() == nil {
+		return false
+	}
+	for _, r := range *v.Referrers() {
+		if _, dbg := r.(*ssa.DebugRef); !dbg {
+			return true
+		}
+	}
+	return false
+}
+
+func runC14(w *World, c *Check) {
+	c.Rule("C14.layout", "reader and writer follow the MIT keytab format field by field (widths, order, version conditions, loops) and agree with each other", 28)
+	c.Rule("C14.endian", "integers are big-endian except in version 1 on a little-endian host, selected identically by reader and writer", 4)
+	c.Rule("C14.holes", "records with a negative length are skipped, not parsed; parsing stops at a zero length", 2)
+	c.Rule("C14.kvno", "the 32-bit key version overrides the 8-bit one only when present and non-zero", 2)
+	c.Rule("C14.errors", "no reader error is dropped in Keytab.Unmarshal's call tree", 8)
+	keytabFilterRule(w, c, "C14.filter")
+
+	src := "MIT keytab file format"
+	ver := `.*\.version|v`
+	type tr struct {
+		fk     string
+		writer bool
+		want   []string
+	}
+	for _, t := range []tr{
+		{"keytab.(*Keytab).Unmarshal", false, []string{"U32→tmp", "PRINC *", "TS→Timestamp *", "U8→KVNO8 *", "U16→KeyType *", "U16→tmp *", "BYTES(tmp)→KeyValue *", "U32→KVNO [remaining>=4] *", "U32→tmp *"}},
+		{"keytab.parsePrincipal", false, []string{"U16→NumComponents", "DEC→NumComponents [v==1]", "U16→tmp", "BYTES(tmp)→Realm", "U16→tmp *", "BYTES(tmp)→Components *", "U32→NameType [v!=1]"}},
+		{"keytab.readTimestamp", false, []string{"U32→ret"}},
+		{"keytab.(*Keytab).Marshal", true, []string{"W8(1)→version", "WENTRY→Entries[$i0] *"}},
+		{"keytab.(entry).marshal", true, []string{"WPRINC→Principal", "W32(0:4)→Timestamp", "W8(4)→KVNO8", "W16(5:7)→KeyType", "W16(7:9)→len(KeyValue)", "WBYTES→KeyValue", "W32→KVNO", "W32→len(buffer)"}},
+		{"keytab.(principal).marshal", true, []string{"INC→tmp [v==1]", "W16(0:)→count(Components)", "WSTR→Realm", "WSTR→Components[$i0] *", "W32→NameType [v!=1]"}},
+		{"keytab.marshalString", true, []string{"W16(0:)→len(s)", "WBYTES→s"}},
+	} {
+		fn := w.Func(t.fk)
+		if fn == nil {
+			c.Missing("C14.layout", t.fk)
+			continue
+		}
+		fa := NewFuncAn(w, fn)
+		var got []layTok
+		what := "reader"
+		if t.writer {
+			got = writerTrace(fa, ver, writerOps("keytab"))
+			what = "writer"
+		} else {
+			got = readerTrace(fa, readerOps("keytab"), ver)
+		}
+		compareTrace(c, "C14.layout", t.fk, w.Pos(fn.Pos()), what, got, t.want, src)
+	}
+	// the record length written is the length of what follows and is prepended
+	if fn := w.Func("keytab.(entry).marshal"); fn != nil {
+		fa := NewFuncAn(w, fn)
+		ok := false
+		for _, rs := range fa.returnsOf() {
+			if len(rs) == 2 && rs[1] == "nil" && strings.HasPrefix(rs[0], "append(local<[4]byte>") {
+				ok = true
+			}
+		}
+		c.Decide(ok, "C14.layout", "keytab.(entry).marshal", "length-prefix-first", w.Pos(fn.Pos()), "the 32-bit record length precedes the record (append(length, record…))", "the success return is not append(<4-byte length>, record…)")
+	}
+
+	// ---- endianness selector -------------------------------------------------------
+	for _, fk := range []string{"keytab.(*Keytab).Unmarshal", "keytab.(entry).marshal", "keytab.(principal).marshal", "keytab.marshalString"} {
+		fn := w.Func(fk)
+		if fn == nil {
+			c.Missing("C14.endian", fk)
+			continue
+		}
+		fa := NewFuncAn(w, fn)
+		v1 := fa.MatchGuard(EqPass("1", ver))
+		nat := fa.MatchGuard(TruePass(`keytab\.isNativeEndianLittle\(\)`))
+		// LittleEndian is selected only under both
+		okSel := len(v1) > 0 && len(nat) > 0
+		var le []ssa.Instruction
+		for _, b := range fn.Blocks {
+			for _, in := range b.Instrs {
+				if v, ok := in.(ssa.Value); ok && strings.Contains(fa.R.R(v), "encoding/binary.LittleEndian") {
+					if _, isLoad := in.(*ssa.UnOp); isLoad {
+						le = append(le, in)
+					}
+				}
+			}
+		}
+		for _, in := range le {
+			if fa.PathToInstrAvoiding(v1, in) != nil || fa.PathToInstrAvoiding(nat, in) != nil {
+				okSel = false
+			}
+		}
+		c.Decide(okSel && len(le) > 0, "C14.endian", fk, "byte-order", w.Pos(fn.Pos()), "little-endian is used only for version 1 on a little-endian host, big-endian otherwise", "LittleEndian is selected outside `version == 1 && isNativeEndianLittle()`")
+	}
+
+	// ---- holes -------------------------------------------------------------------------
+	if fn := w.Func("keytab.(*Keytab).Unmarshal"); fn != nil {
+		fa := NewFuncAn(w, fn)
+		neg := fa.MatchGuard(GuardPat{Kind: "gt", X: "0", Y: `\$L\d+|keytab\.readInt32\(b, [^\[]*\)#0`, PassWhen: true}) // edge on which l < 0
+		princ := fa.Calls(`keytab\.parsePrincipal`)
+		okHole := len(neg) > 0 && len(princ) == 1
+		if okHole {
+			hdr := loopHeaderOf(princ[0].Block())
+			rm := map[Edge]bool{}
+			if hdr != nil {
+				for _, p := range hdr.Preds {
+					for k, s := range p.Succs {
+						if s == hdr {
+							rm[Edge{p, k}] = true
+						}
+					}
+				}
+			}
+			for _, e := range neg {
+				if p := pathTo(e.To(), rm, nil, map[*ssa.BasicBlock]bool{princ[0].Block(): true}); p != nil {
+					okHole = false
+				}
+			}
+		}
+		c.Decide(okHole, "C14.holes", FuncKey(fn), "negative-length-skipped", w.Pos(fn.Pos()), "a record with a negative length (deleted entry) is skipped over, not parsed", "the entry parser is reachable with a negative record length")
+		zero := fa.MatchGuard(EqPass("0", `\$L\d+|keytab\.readInt32\(b, [^\[]*\)#0`))
+		c.Decide(len(zero) > 0, "C14.holes", FuncKey(fn), "zero-length-stops", w.Pos(fn.Pos()), "a zero record length ends the file", "no test for a zero record length")
+		// kvno defaulting
+		st := fa.storesTo(`.*\.KVNO`)
+		var from8 *ssa.Store
+		for _, s := range st {
+			if strings.HasSuffix(fa.R.R(s.Val), ".KVNO8") {
+				from8 = s
+			}
+		}
+		z := fa.MatchGuard(EqPass("0", `.*\.KVNO`))
+		okK := from8 != nil && len(z) > 0 && fa.PathToInstrAvoiding(z, from8) == nil
+		c.Decide(okK, "C14.kvno", FuncKey(fn), "kvno8-fallback", w.Pos(fn.Pos()), "KVNO is set from the 8-bit field only when the 32-bit field is absent or zero", "the fallback store is not guarded by KVNO == 0")
+		c.Decide(len(st) >= 2, "C14.kvno", FuncKey(fn), "kvno32-read", w.Pos(fn.Pos()), "the trailing 32-bit kvno, when present, is stored into KVNO", fmt.Sprintf("%d stores to KVNO", len(st)))
+	}
+
+	ruleErrDropped(w, c, "C14.errors", []string{"keytab.(*Keytab).Unmarshal", "keytab.parsePrincipal", "keytab.readTimestamp", "keytab.(*Keytab).Marshal", "keytab.(entry).marshal", "keytab.(principal).marshal"})
 }
